@@ -82,7 +82,17 @@ class Interp:
         if k == 'PLit':
             return pat.get('v') == val
         if k == 'PStruct':
-            return isinstance(val, tuple) and val and val[0] == last(pat.get('def'))
+            name = last(pat.get('def'))
+            if isinstance(val, tuple) and len(val) == 3 and val[0] == '#struct':
+                if val[1] != name:
+                    return False
+                for f in pat.get('fields', []):
+                    if f['f'] not in val[2]:
+                        raise Undecided('field %s of %s' % (f['f'], name))
+                    if not self.match(f['p'], val[2][f['f']], env, fn):
+                        return False
+                return True
+            return isinstance(val, tuple) and bool(val) and val[0] == name
         raise Undecided('pattern kind %s' % k)
 
     # ---- expressions -----------------------------------------------------------------------
@@ -278,7 +288,18 @@ class Interp:
                 return ('#opaque',)
             raise Undecided('method %s' % d)
         if k == 'Struct':
+            if e.get('base') is None and e.get('fields') is not None:
+                return ('#struct', last(e.get('def')), {f['f']: self.eval(f['e'], env, fn, depth) for f in e['fields']})
             return (last(e.get('def')),)
+        if k == 'Field':
+            b = self.eval(e['e'], env, fn, depth)
+            if isinstance(b, tuple) and len(b) == 3 and b[0] == '#struct' and e.get('f') in b[2]:
+                return b[2][e['f']]
+            if isinstance(b, tuple) and b and str(e.get('f', '')).isdigit() and b[0] not in ('#struct', '#opaque') and int(e['f']) + 1 < len(b):
+                return b[int(e['f']) + 1]
+            if self.lenient or b == OPAQUE:
+                return OPAQUE
+            raise Undecided('field %s of %r' % (e.get('f'), b))
         if k == 'Tup' and not e['es']:
             return ('#unit',)
         if e.get('x') in ('panic', 'unreachable'):
